@@ -27,12 +27,12 @@ type Obligation struct {
 	Pos     string
 	Params  []ParamConst
 	// results (filled by solver)
-	Status string // discharged | refuted | undecided | cover-ok | cover-vacuous
-	Solver string
-	Time   float64
-	Model  map[string]string
-	Output string
-	Except string // known-finding exception applied
+	Status  string // discharged | refuted | undecided | cover-ok | cover-vacuous
+	Solver  string
+	Time    float64
+	Model   map[string]string
+	Output  string
+	Except  string // known-finding exception applied
 	Finding *Finding
 }
 
@@ -57,52 +57,52 @@ type loopInfo struct {
 	preHeap   map[string]string   // heap key -> term before the loop (for the automatic loop frame)
 	frameRefs map[string][]string // heap key -> the only refs the loop writes
 	headMem   *Mem                // memory at the loop head (after havoc), for decreases
-	header  *ssa.BasicBlock
-	blocks  map[*ssa.BasicBlock]bool
-	ordinal int
-	minIdx  int
-	modset  map[string]bool
+	header    *ssa.BasicBlock
+	blocks    map[*ssa.BasicBlock]bool
+	ordinal   int
+	minIdx    int
+	modset    map[string]bool
 }
 
 type FnEnc struct {
-	g      *Gen
-	s      *Sess
-	top    *FnEnc
-	parent *FnEnc
-	fn     *ssa.Function
-	ct     *Contract
-	vals   map[ssa.Value]Val
-	depth  int
-	obls   []*Obligation // only on top
-	sites  map[string]int
-	guard  string
-	mem    *Mem
-	entryMem *Mem
-	paramVals map[string]Val
-	paramConsts []ParamConst
-	rets   []retInfo
-	loops  map[*ssa.BasicBlock]*loopInfo
-	modsets map[string]map[string]bool // loop key (fn name + ordinal) -> modified keys; on top
-	modrefs map[string]map[string]map[string]bool // loop key -> heap key -> refs written ("*" = unknown)
-	modGrew bool
-	curLoops []*loopInfo // loops containing the current block (this function) + parent's
-	sitePrefix string
-	freeVars []Val
-	defers []*ssa.Defer
-	blockOf *ssa.BasicBlock
-	inlined map[string]bool
-	havocked map[string]bool
-	stack  []*ssa.Function
-	props  []string
-	bounded int
-	ghostLocks map[string]bool
-	bindErrs []string
-	ctNoPanic int
-	dbg map[string][]*ssa.DebugRef
-	ifaceCalls []IfaceCall
-	cellInit0 map[string]string
+	g                   *Gen
+	s                   *Sess
+	top                 *FnEnc
+	parent              *FnEnc
+	fn                  *ssa.Function
+	ct                  *Contract
+	vals                map[ssa.Value]Val
+	depth               int
+	obls                []*Obligation // only on top
+	sites               map[string]int
+	guard               string
+	mem                 *Mem
+	entryMem            *Mem
+	paramVals           map[string]Val
+	paramConsts         []ParamConst
+	rets                []retInfo
+	loops               map[*ssa.BasicBlock]*loopInfo
+	modsets             map[string]map[string]bool            // loop key (fn name + ordinal) -> modified keys; on top
+	modrefs             map[string]map[string]map[string]bool // loop key -> heap key -> refs written ("*" = unknown)
+	modGrew             bool
+	curLoops            []*loopInfo // loops containing the current block (this function) + parent's
+	sitePrefix          string
+	freeVars            []Val
+	defers              []*ssa.Defer
+	blockOf             *ssa.BasicBlock
+	inlined             map[string]bool
+	havocked            map[string]bool
+	stack               []*ssa.Function
+	props               []string
+	bounded             int
+	ghostLocks          map[string]bool
+	bindErrs            []string
+	ctNoPanic           int
+	dbg                 map[string][]*ssa.DebugRef
+	ifaceCalls          []IfaceCall
+	cellInit0           map[string]string
 	staticContractCalls int
-	oblNames map[string]int
+	oblNames            map[string]int
 }
 
 func (fe *FnEnc) fnName() string { return shortFn(fe.fn) }
